@@ -8,6 +8,7 @@ package harness
 import (
 	"bytes"
 	"fmt"
+	"strings"
 
 	"github.com/gcash/bchutil/base58"
 	"pgregory.net/rapid"
@@ -59,6 +60,18 @@ func sweep(c aliasSweep, o *Obs, judge func(string, *Obs) error) error {
 	for _, v := range aliasVariants(c.Base) {
 		if err := judge(v, o); err != nil {
 			return fmt.Errorf("one character of %q replaced by an alias: %v", c.Base, err)
+		}
+	}
+	// Base58 strings: the decoded bytes (checksum included) followed by further bytes - a longer payload that
+	// begins with a valid one
+	if raw, ok := refB58Decode(c.Base); ok && len(raw) > 0 && !strings.Contains(c.Base, ":") {
+		for _, n := range []int{1, 2, 5, 40, 200} {
+			for _, fill := range []byte{0x00, 0x01, 0xff} {
+				v := refB58Encode(append(append([]byte{}, raw...), bytes.Repeat([]byte{fill}, n)...))
+				if err := judge(v, o); err != nil {
+					return fmt.Errorf("the bytes of %q followed by %d bytes %#x: %v", c.Base, n, fill, err)
+				}
+			}
 		}
 	}
 	for _, v := range wrapVariants(c.Base) {
